@@ -1458,6 +1458,13 @@ theorem C09_stdio_answers (ofd : Nat) (w : W) (c : Cli) :
     simp only [ClientPf.outOf, hfd] at hout
     exact hout
 
+/-- **A whole `cli_post_poll` of the `--stdio` daemon, for every set of poll events** (readable, writable, hang-up, error,
+    invalid, on either descriptor, with any data and any capacity): every `write` among the system calls of the pass is on the
+    output descriptor.  Nothing queued for the client can end up on its input descriptor or on another descriptor. -/
+theorem C09_stdio_writes_only_out (ofd : Nat) (w : W) (envs : List FdEnv) :
+    ∀ s ∈ (cliPostPollIO ofd w envs).sys, Isolation.isWrite s = true → Isolation.sysFd s = some ofd :=
+  cliPostPollIO_writes ofd w envs
+
 /-- non-vacuity: a client with 5 bytes queued, an output descriptor (1001) that can take 2 of them: all 18 bytes (queue and
     farewell) are written to 1001, none to the input descriptor 1000, and the call is marked as one that sleeps -/
 example :
